@@ -93,6 +93,59 @@ def _block(idx):
     return None
 
 
+def _identity_pattern(m, dim, on_manifold):
+    """what an identity_ implementation leaves in a tensor of last dimension `dim`: 'identity()' (copy of cls.identity(...)), a list of floats, or None"""
+    me = m.pos_params[1] if len(m.pos_params) > 1 else None
+    pat = None
+
+    def run(body):
+        nonlocal pat
+        for st in body:
+            if isinstance(st, ast.If):
+                t = st.test
+                neg = False
+                while isinstance(t, ast.UnaryOp) and isinstance(t.op, ast.Not):
+                    neg, t = not neg, t.operand
+                if isinstance(t, ast.Attribute) and t.attr == 'on_manifold':
+                    v = on_manifold != neg
+                    if run(st.body if v else st.orelse) == 'ret':
+                        return 'ret'
+                    continue
+                return 'unknown'
+            calls = [c for c in paths.calls_in(st) if isinstance(c.func, ast.Attribute)]
+            for c in calls:
+                recv = c.func.value
+                if not (isinstance(recv, ast.Name) and recv.id == me):
+                    continue
+                if c.func.attr in ('fill_', 'zero_'):
+                    v = 0.0 if c.func.attr == 'zero_' else (float(ast.literal_eval(c.args[0])) if c.args and isinstance(c.args[0], ast.Constant) else None)
+                    if v is None:
+                        return 'unknown'
+                    pat = [v] * dim
+                elif c.func.attr == 'copy_' and c.args and isinstance(c.args[0], ast.Call) and (dotted(c.args[0].func) or '') in ('cls.identity', 'self.identity'):
+                    pat = 'identity()'
+                elif c.func.attr == 'index_fill_':
+                    kw = {k.arg: k.value for k in c.keywords}
+                    args = list(c.args)
+                    d_, i_, v_ = kw.get('dim', args[0] if args else None), kw.get('index', args[1] if len(args) > 1 else None), kw.get('value', args[2] if len(args) > 2 else None)
+                    try:
+                        dv = ast.literal_eval(d_)
+                        vv = float(ast.literal_eval(v_))
+                        il = [x for x in ast.walk(i_) if isinstance(x, ast.List)]
+                        idx = ast.literal_eval(il[0]) if il else None
+                    except (ValueError, SyntaxError, TypeError):
+                        return 'unknown'
+                    if dv != -1 or idx is None or not isinstance(pat, list):
+                        return 'unknown'
+                    for k in idx:
+                        pat[k] = vv
+            if isinstance(st, ast.Return):
+                return 'ret'
+        return None
+    r = run(m.node.body)
+    return None if r == 'unknown' else pat
+
+
 @guarded
 def rule_id(repo):
     res = RuleResult('C03.ID', 'identity constructors: the literal has zeros on translation / quaternion-vector slots and ones on the '
@@ -130,20 +183,30 @@ def rule_id(repo):
         res.inst({'function': fa.fq, 'log_of_group_identity': ok}, fa.fq)
         if not ok:
             res.add(Finding('C03.ID', fa, '%s identity must be Log of the %s identity' % (a, G), construct='algebra identity'))
-    f = repo.func(LT, 'SO3Type.identity_')
-    calls = [(c.func.attr, c) for c in paths.calls_in(f.node) if isinstance(c.func, ast.Attribute)
-             and isinstance(c.func.value, ast.Name) and c.func.value.id == f.pos_params[1]]
-    names = [c[0] for c in calls]
-    ok = names[:2] == ['fill_', 'index_fill_']
-    if ok:
-        fill, idxf = calls[0][1], calls[1][1]
-        ok = src(fill.args[0]) == '0' if fill.args else False
-        kw = {k.arg: k.value for k in idxf.keywords}
-        ok = ok and src(kw.get('dim', ast.Constant(None))) == '-1' and src(kw.get('value', ast.Constant(None))) == '1' \
-            and '[-1]' in src(kw.get('index', ast.Constant(None))).replace(' ', '')
-    res.inst({'function': f.fq, 'zero_then_w_one': ok}, f.fq)
-    if not ok:
-        res.add(Finding('C03.ID', f, 'identity_ must zero the tensor and then set the w slot (last entry) to one', construct='identity_'))
+    # identity_ : for every concrete type the implementation found along the MRO writes exactly the identity pattern of THAT type
+    dims = {G: sum(n for _, n in atoms_of(table, G)) for G in GROUPS}
+    for T in list(GROUPS) + [ALG[G] for G in GROUPS]:
+        ci = repo.cls(LT, T + 'Type')
+        m = repo.find_method(ci, 'identity_')
+        if m is None:
+            continue                         # reported by the exhaustiveness clause below
+        is_group = T in GROUPS
+        if is_group:
+            want = []
+            for role, n in atoms_of(table, T):
+                want += [1.0 if role in ('w', 's') else 0.0] * n
+        else:
+            G = [g for g in GROUPS if ALG[g] == T][0]
+            want = [0.0] * {'SO3': 3, 'SE3': 6, 'RxSO3': 4, 'Sim3': 7}[G]
+        pat = _identity_pattern(m, len(want), on_manifold=not is_group)
+        res.inst({'class': ci.fq, 'identity_ resolves to': m.fq, 'writes': pat if pat != 'identity()' else 'a copy of cls.identity()', 'expected': want}, (ci.fq, 'identity_pattern'))
+        if pat is None:
+            if len(m.node.body) and isinstance(m.node.body[-1], ast.Raise):
+                continue
+            raise AnalysisError('C03.ID: cannot read what %s writes' % m.fq)
+        if pat != 'identity()' and pat != want:
+            res.add(Finding('C03.ID', m, 'identity_ of %s resolves to %s, which writes %s; the identity of this type is %s (layout %s): the element left behind is '
+                            'not the neutral element' % (T, m.fq, pat, want, atoms_of(table, T) if is_group else 'zero vector'), construct='identity_ pattern|' + T))
     # the constructors document lsize as "a variable number of arguments or a collection like a list or tuple": the *size they receive is
     # normalised by to_tuple before it is used as a shape (randn does it; identity must too, or identity_SE3((2, 3)) raises in repeat())
     for G in GROUPS:
@@ -397,4 +460,4 @@ def rules(repo, tier):
                                                       'before it is complete - a later call with the same object and other contents must not be answered from it',
                                                       ['pypose.lietensor.lietensor', 'pypose.lietensor.operation', 'pypose.lietensor.basics', 'pypose.lietensor.utils'], floor=3),
             rule_optional(repo, 'C03.OPT', ['pypose.lietensor.lietensor', 'pypose.lietensor.operation', 'pypose.lietensor.basics', 'pypose.lietensor.utils'])] + mode_rules(repo, 'C03', ['pypose.lietensor.lietensor', 'pypose.lietensor.operation', 'pypose.lietensor.basics', 'pypose.lietensor.utils']) + [rule_callsig(repo, 'C03.SIG', ['pypose.lietensor.lietensor', 'pypose.lietensor.operation', 'pypose.lietensor.basics', 'pypose.lietensor.utils']), rule_docsig(repo, 'C03.DOC', ['pypose.lietensor.lietensor', 'pypose.lietensor.operation', 'pypose.lietensor.basics', 'pypose.lietensor.utils'])] + [
-            rule_axisdefault(repo, 'C03.AXDEF', ['pypose.lietensor.lietensor', 'pypose.lietensor.operation', 'pypose.lietensor.basics', 'pypose.lietensor.utils', 'pypose.lietensor.convert', 'pypose.basics.ops'])]
+            rule_axisdefault(repo, 'C03.AXDEF', ['pypose.lietensor.lietensor', 'pypose.lietensor.operation', 'pypose.lietensor.basics', 'pypose.lietensor.utils', 'pypose.lietensor.convert', 'pypose.basics.ops']), __import__('sa.axisdefault', fromlist=['x']).rule_frontaxis(repo, 'C03.BAX', ['pypose.lietensor.lietensor', 'pypose.lietensor.operation', 'pypose.lietensor.basics', 'pypose.lietensor.utils', 'pypose.lietensor.convert'])]
